@@ -128,6 +128,29 @@ def live_witnesses():
     return out
 
 
+def live_original_encoding_probes():
+    """Documents that are empty once the byte-order mark is stripped x names that are no text codec here, through the live constructor:
+    (label, original_encoding is None or a text codec?)"""
+    from bs4 import BeautifulSoup
+    out = []
+    for bom, bl in ((b"\xef\xbb\xbf", "utf8-bom"), (b"\xff\xfe", "utf16le-bom"), (b"\xff\xfe\x00\x00", "utf32le-bom")):
+        for name in ("nosuch", "mbcs-or-unknown", "base64", "rot13", "hex"):
+            try:
+                with warnings.catch_warnings():
+                    warnings.simplefilter("ignore")
+                    oe = BeautifulSoup(bom, "html.parser", from_encoding=name).original_encoding
+                ok = True
+                if oe is not None:
+                    try:
+                        "".encode(oe)
+                    except LookupError:
+                        ok = False
+            except Exception:
+                ok = False
+            out.append((f"{bl}/{name}", ok))
+    return out
+
+
 def _snap(v):
     """value snapshot that notices in-place mutation of the containers the parser state uses"""
     if isinstance(v, list):
@@ -244,6 +267,9 @@ def gen_construct():
     wit = ", ".join('("%s", %s)' % (l, "true" if ok else "false") for l, ok in live_witnesses())
     t += "/-- the live constructor on the witness inputs of the unrepaired mirrors: ends in a tree or ParserRejectedMarkup? -/\n"
     t += f"def liveWitnesses : List (String × Bool) := [{wit}]\n"
+    oep = ", ".join('("%s", %s)' % (l, "true" if ok else "false") for l, ok in live_original_encoding_probes())
+    t += "/-- BOM-only documents x names that are no text codec, live constructor: is original_encoding (None or) a text codec? -/\n"
+    t += f"def liveOriginalEncodingIsCodec : List (String × Bool) := [{oep}]\n"
     t += f"def resetAssigns : List String := {lean_string_list(ft['reset'])}\n"
     t += f"def headerAssigns : List String := {lean_string_list(ft['header'])}\n"
     t += f"def attemptBuilderAssigns : List String := {lean_string_list(ft['builder'])}\n"
